@@ -28,6 +28,7 @@ def handle (line : String) : String :=
   | "pipe" :: ts => pipeLine ts
   | "pipespec" :: ts => pipeSpecLine ts
   | "pipemaps" :: ts => pipeMapsLine ts
+  | "pipeburst" :: ts => pipeBurstLine ts
   | "evpath" :: ts => c19Line ts
   | "winrun" :: ts => winRunLine ts
   | "winemit" :: ts => winEmitLine ts
